@@ -1,0 +1,267 @@
+//! Verification hooks. Only compiled with the cargo feature `verif` (off by default).
+//!
+//! An external harness can install a process-global [`IoHook`] that observes every mutating file
+//! operation NOMT performs on an existing store (and the completions of asynchronous I/O), may
+//! make an operation fail with an injected OS error instead of being performed, and may delay or
+//! abort the process at an event boundary. It also exposes a few schedule yield points and an
+//! override of the rollback log segment size. None of this exists without the feature.
+
+use std::{
+    io,
+    os::fd::RawFd,
+    path::Path,
+    sync::{
+        atomic::{AtomicU64, Ordering},
+        Arc, RwLock,
+    },
+};
+
+/// The kind of an observed operation.
+#[derive(Debug, Clone, Copy, PartialEq, Eq, Hash)]
+pub enum Kind {
+    /// A positional write of `data` at `offset` (synchronous).
+    Write,
+    /// A write of `data` at the current end of a file opened in append mode.
+    Append,
+    /// A change of file length to `offset` bytes.
+    SetLen,
+    /// `fsync`/`fdatasync` of a regular file.
+    Fsync,
+    /// `fsync`/`fdatasync` of a directory.
+    DirFsync,
+    /// Removal of the file at `path`.
+    Unlink,
+    /// Creation of a new file at `path`.
+    Create,
+    /// An asynchronous page write handed to the I/O pool (`offset` in bytes, one page of data).
+    UringWrite,
+    /// An asynchronous page read handed to the I/O pool.
+    UringRead,
+}
+
+/// Description of one operation.
+pub struct Op<'a> {
+    /// Static name of the call site.
+    pub site: &'static str,
+    /// Operation kind.
+    pub kind: Kind,
+    /// Raw file descriptor, or -1 for path-based operations.
+    pub fd: RawFd,
+    /// Path for path-based operations.
+    pub path: Option<&'a Path>,
+    /// Byte offset (writes) or new length (set_len).
+    pub offset: u64,
+    /// Data to be written (empty otherwise).
+    pub data: &'a [u8],
+    /// Unique id pairing `pre` and `post` of synchronous operations (0 for async ones).
+    pub id: u64,
+}
+
+/// What the hook wants to happen to the operation.
+pub enum Action {
+    /// Perform the operation.
+    Proceed,
+    /// Do not perform it; make it fail with this errno.
+    Fail(i32),
+}
+
+/// The hook interface.
+pub trait IoHook: Send + Sync {
+    /// Called before the operation is performed (for async I/O: before it is submitted).
+    fn pre(&self, op: &Op) -> Action;
+    /// Called after the operation finished (for async I/O: before the completion is delivered).
+    fn post(&self, site: &'static str, kind: Kind, fd: RawFd, offset: u64, id: u64, ok: bool);
+    /// A schedule yield point.
+    fn sched_point(&self, _tag: &'static str) {}
+}
+
+static HOOK: RwLock<Option<Arc<dyn IoHook>>> = RwLock::new(None);
+static NEXT_ID: AtomicU64 = AtomicU64::new(1);
+static SEG_SIZE: AtomicU64 = AtomicU64::new(0);
+
+/// Install (or remove) the process-global hook.
+pub fn set_hook(hook: Option<Arc<dyn IoHook>>) {
+    *HOOK.write().unwrap() = hook;
+}
+
+fn hook() -> Option<Arc<dyn IoHook>> {
+    HOOK.read().unwrap().clone()
+}
+
+/// Override the maximum size of rollback log segments (0 = no override).
+pub fn set_seg_size_override(bytes: u64) {
+    SEG_SIZE.store(bytes, Ordering::SeqCst);
+}
+
+pub(crate) fn seg_size_override() -> Option<u64> {
+    match SEG_SIZE.load(Ordering::SeqCst) {
+        0 => None,
+        n => Some(n),
+    }
+}
+
+/// A yield point between critical sections.
+pub(crate) fn sched_point(tag: &'static str) {
+    if let Some(h) = hook() {
+        h.sched_point(tag);
+    }
+}
+
+/// Pairs the `pre` of a synchronous operation with its `post`. If dropped without `done`, the
+/// operation is reported as failed.
+pub(crate) struct Guard {
+    hook: Option<Arc<dyn IoHook>>,
+    site: &'static str,
+    kind: Kind,
+    fd: RawFd,
+    offset: u64,
+    id: u64,
+    inject: Option<i32>,
+}
+
+impl Guard {
+    /// The operation succeeded.
+    pub(crate) fn done(mut self) {
+        if let Some(h) = self.hook.take() {
+            h.post(self.site, self.kind, self.fd, self.offset, self.id, true);
+        }
+    }
+
+    /// For call sites that hold the result in a binding: report it, and replace it with the
+    /// injected error if the hook asked for one.
+    pub(crate) fn finish_result(mut self, res: io::Result<()>) -> io::Result<()> {
+        let res = match self.inject.take() {
+            Some(errno) => Err(io::Error::from_raw_os_error(errno)),
+            None => res,
+        };
+        if let Some(h) = self.hook.take() {
+            h.post(self.site, self.kind, self.fd, self.offset, self.id, res.is_ok());
+        }
+        res
+    }
+}
+
+impl Drop for Guard {
+    fn drop(&mut self) {
+        if let Some(h) = self.hook.take() {
+            h.post(self.site, self.kind, self.fd, self.offset, self.id, false);
+        }
+    }
+}
+
+fn mk(
+    site: &'static str,
+    kind: Kind,
+    fd: RawFd,
+    path: Option<&Path>,
+    offset: u64,
+    data: &[u8],
+    fallible: bool,
+) -> io::Result<Guard> {
+    let Some(h) = hook() else {
+        return Ok(Guard {
+            hook: None,
+            site,
+            kind,
+            fd,
+            offset,
+            id: 0,
+            inject: None,
+        });
+    };
+    let id = NEXT_ID.fetch_add(1, Ordering::Relaxed);
+    let op = Op {
+        site,
+        kind,
+        fd,
+        path,
+        offset,
+        data,
+        id,
+    };
+    match h.pre(&op) {
+        Action::Proceed => Ok(Guard {
+            hook: Some(h),
+            site,
+            kind,
+            fd,
+            offset,
+            id,
+            inject: None,
+        }),
+        Action::Fail(errno) if fallible => {
+            h.post(site, kind, fd, offset, id, false);
+            Err(io::Error::from_raw_os_error(errno))
+        }
+        Action::Fail(errno) => Ok(Guard {
+            hook: Some(h),
+            site,
+            kind,
+            fd,
+            offset,
+            id,
+            inject: Some(errno),
+        }),
+    }
+}
+
+/// Before a synchronous fd-based operation. `Err` means: fail with this injected error instead.
+pub(crate) fn pre(
+    site: &'static str,
+    kind: Kind,
+    fd: RawFd,
+    offset: u64,
+    data: &[u8],
+) -> io::Result<Guard> {
+    mk(site, kind, fd, None, offset, data, true)
+}
+
+/// Before a synchronous path-based operation.
+pub(crate) fn pre_path(site: &'static str, kind: Kind, path: &Path) -> io::Result<Guard> {
+    mk(site, kind, -1, Some(path), 0, &[], true)
+}
+
+/// Before a synchronous operation whose result is kept in a binding; use with
+/// [`Guard::finish_result`].
+pub(crate) fn pre_deferred(site: &'static str, kind: Kind, fd: RawFd) -> Guard {
+    // UNWRAP: `fallible = false` never returns `Err`.
+    mk(site, kind, fd, None, 0, &[], false).unwrap()
+}
+
+/// Before an asynchronous page I/O is submitted. `Some(errno)`: complete it with this error
+/// without touching the file.
+pub(crate) fn uring_submit(write: bool, fd: RawFd, offset: u64, data: &[u8]) -> Option<i32> {
+    let h = hook()?;
+    let op = Op {
+        site: "io_pool",
+        kind: if write {
+            Kind::UringWrite
+        } else {
+            Kind::UringRead
+        },
+        fd,
+        path: None,
+        offset,
+        data,
+        id: 0,
+    };
+    match h.pre(&op) {
+        Action::Proceed => None,
+        Action::Fail(errno) => {
+            h.post("io_pool", op.kind, fd, offset, 0, false);
+            Some(errno)
+        }
+    }
+}
+
+/// Before the completion of an asynchronous page I/O is delivered.
+pub(crate) fn uring_complete(write: bool, fd: RawFd, offset: u64, ok: bool) {
+    if let Some(h) = hook() {
+        let kind = if write {
+            Kind::UringWrite
+        } else {
+            Kind::UringRead
+        };
+        h.post("io_pool", kind, fd, offset, 0, ok);
+    }
+}
